@@ -2843,12 +2843,17 @@ def _let_ast(form: ISeq, ctx: AnalyzerContext) -> Let:
                     "let binding name must be a symbol", form=name
                 )
 
+            # The init is always an expression, even if the `let*` form itself
+            # is in a statement position.
+            with ctx.expr_pos():
+                init = _analyze_form(value, ctx)
+
             binding = Binding(
                 form=name,
                 name=name.name,
                 local=LocalType.LET,
                 tag=_tag_ast(_tag_meta(name), ctx),
-                init=_analyze_form(value, ctx),
+                init=init,
                 children=vec.v(INIT),
                 env=ctx.get_node_env(),
             )
@@ -3018,11 +3023,16 @@ def _loop_ast(form: ISeq, ctx: AnalyzerContext) -> Loop:
                     "loop binding name must be a symbol", form=name
                 )
 
+            # The init is always an expression, even if the `loop*` form itself
+            # is in a statement position.
+            with ctx.expr_pos():
+                init = _analyze_form(value, ctx)
+
             binding = Binding(
                 form=name,
                 name=name.name,
                 local=LocalType.LOOP,
-                init=_analyze_form(value, ctx),
+                init=init,
                 env=ctx.get_node_env(),
             )
             binding_nodes.append(binding)
